@@ -248,4 +248,93 @@ def doUpdate (s : State) (new : List GConfig) (args : List String) : State :=
   | (.ok (a, c, r), s') => runCalls s' (updateCalls (validNames args) [] a c r)
   | (.error _, s') => s'
 
+
+/-! ## a file that cannot be parsed: which exception leaves process_config, and what reloadConfig makes of it
+
+  Every check of options.py / datatypes.py raises ValueError itself.  The one place where the class is decided by
+  CPython is `s % expansions` in `expand()`: an unknown name is a KeyError, a malformed conversion a ValueError, a
+  numeric conversion without a mapping key or of a string (`+%d`, `%(program_name)d`) a TypeError.  What leaves
+  `expand()` is decided by its except clauses, what reloadConfig answers by its own — both GENERATED
+  (`expandHandlers`, `reloadCatches`). -/
+
+/-- the fragment of CPython's exception hierarchy that matters here: class ↦ its proper base classes -/
+def pyBases : List (String × List String) :=
+  [("KeyError", ["LookupError", "Exception", "BaseException"]), ("IndexError", ["LookupError", "Exception", "BaseException"]),
+   ("LookupError", ["Exception", "BaseException"]), ("ValueError", ["Exception", "BaseException"]),
+   ("TypeError", ["Exception", "BaseException"]), ("UnicodeDecodeError", ["UnicodeError", "ValueError", "Exception", "BaseException"]),
+   ("UnicodeError", ["ValueError", "Exception", "BaseException"]), ("OverflowError", ["ArithmeticError", "Exception", "BaseException"]),
+   ("ArithmeticError", ["Exception", "BaseException"]), ("Exception", ["BaseException"]), ("BaseException", [])]
+
+/-- `issubclass(c, d)` -/
+def isSubclass (c d : String) : Bool := c == d || ((pyBases.lookup c).getD []).contains d
+
+/-- the classes `str % dict` raises in CPython: unknown mapping key; incomplete or unsupported conversion; a conversion
+    applied to a value it does not accept (no mapping key at all: the dict itself is the value) -/
+def formatRaises : List String := ["KeyError", "ValueError", "TypeError"]
+
+/-- an exception of class `c` raised inside `try:` with the except clauses `hs` (class caught, class raised; "<same>" =
+    re-raised): the first matching clause decides what leaves; no clause matches: `c` itself -/
+def throughHandlers (hs : List (String × String)) (c : String) : String :=
+  match hs.find? (fun h => isSubclass c h.1) with
+  | some h => if h.2 == "<same>" then c else h.2
+  | none => c
+
+/-- the class that leaves `expand()` when `s % expansions` raised `c` -/
+def expandRaises (c : String) : String := throughHandlers expandHandlers c
+
+inductive Outcome
+  | fault (f : Fault)           -- an RPCError with that fault code
+  | escapes (cls : String)      -- any other exception leaves reloadConfig (the client sees an internal error)
+deriving DecidableEq, Repr
+
+/-- reloadConfig when options.process_config(do_usage=False) raised an exception of class `cls`: nothing has been
+    assigned yet, the state is as it was; the answer is decided by reloadConfig's except clauses -/
+def rereadFailure (s : State) (cls : String) : Outcome × State :=
+  match reloadCatches.find? (fun h => isSubclass cls h.1) with
+  | some h => (if h.2 == "CANT_REREAD" then .fault .cantReread else .escapes ("RPCError " ++ h.2), s)
+  | none => (.escapes cls, s)
+
+/-- the class `%` raised, read off the model's error text (Model/Config.lean `expandGo` / `fmtSpec`); an unkeyed
+    conversion is counted as the TypeError of `%d` (`%Y`, a ValueError, has the same text in the model) -/
+def formatClass (e : String) : Option String :=
+  if e == "expand:name cannot be expanded" then some "KeyError"
+  else if e == "expand:%d of a string" || e == "expand:unkeyed or unsupported format" then some "TypeError"
+  else if strStartsWith "expand:" e then some "ValueError"
+  else none
+
+/-- the class of the exception that leaves process_config for a parse that ended with the model's error `e` -/
+def parseFailureClass (e : String) : String :=
+  match formatClass e with
+  | some c => expandRaises c
+  | none => "ValueError"
+
+/-- reloadConfig when the parse ended with the model's error `e` -/
+def rereadUnparsable (s : State) (e : String) : Outcome × State := rereadFailure s (parseFailureClass e)
+
+/-! ## the working directory
+
+  supervisord reads its file for the first time where it was launched and, after daemonize(), in [supervisord]
+  directory=.  The model's parse (`readConfig`) has no working directory parameter: the parsed value of every option is a
+  function of the file text, the environment and %(here)s.  Whether the code agrees is a GENERATED fact: the functions
+  applied to a child log file name (`childLogfileChain`) and the calls of working-directory dependent functions in the
+  functions that build configurations (`cwdCalls`).  `parseAt` is the parse with whatever of that is coded applied. -/
+
+def cwdSensitive (f : String) : Bool := ["normalize_path", "abspath", "realpath", "relpath", "absolute", "resolve"].contains f
+
+/-- a relative name made absolute in directory `cwd` (normalisation of `.` / `..` components is not followed) -/
+def absIn (cwd p : String) : String := if strStartsWith "/" p then p else cwd ++ "/" ++ p
+
+def lfAt (cwd : String) : LogFile → LogFile
+  | .path p => if childLogfileChain.any cwdSensitive then .path (absIn cwd p) else .path p
+  | l => l
+
+def pconfigAt (cwd : String) (p : PConfig) : PConfig :=
+  { p with stdout_logfile := lfAt cwd p.stdout_logfile, stderr_logfile := lfAt cwd p.stderr_logfile }
+
+def gconfigAt (cwd : String) (g : GConfig) : GConfig := { g with procs := g.procs.map (pconfigAt cwd) }
+
+/-- process_config(do_usage=False) in working directory `cwd` -/
+def parseAt (cwd : String) (ini : Ini) : Except String (List GConfig) :=
+  (readConfig ini).map fun r => r.groups.map (gconfigAt cwd)
+
 end Sv.Reread
